@@ -28,6 +28,21 @@ LEVEL_NOTE = ("Trusted: Coq kernel; translator for interp_previous/nearest/expde
               "proved (theorems are exact-arithmetic statements). Defect found by this check and since repaired in /repo (10db8c5): "
               "with maximum delay 0 a selector carrying the trailing D axis made _synparam_at raise / mis-broadcast; the "
               "witnesses stay in corpus/C04.")
+TRUSTED = ["hand-written model coq/C04/Synapse.v (four forward functions, clear, _synparam_at, DoubleExponentialCurrent.current_at, "
+           "hand transcription of the tensor-time path of RecordTensor.select, torch expand/where broadcasting) - tied to the code "
+           "by the correspondence check only",
+           "C01 ring model (coq/C01/Ring.v) for RecordTensor.push/peek/reset - owned and validated by property C01"]
+ASSUMES = ["theorems are exact-arithmetic (real number) statements; binary64 rounding is not modelled (the check compares the "
+           "binary64 run of the same model with the implementation to 1e-9 relative)",
+           "constructor preconditions: dt > 0, delay >= 0; tolerance 0 <= tol < dt/2 (so that 'within tolerance of a step' is unambiguous)",
+           "selectors have the synapse's batched shape, optionally followed by one axis D; injected currents have the synapse's batched shape",
+           "float64 default dtype on the implementation side"]
+EXPLANATION = ("For every sequence of operations from the constructor the three records hold exactly the past values determined by the "
+               "inputs since the last clear (Inv, run_inv: axiom-free, any record size / pointer / shape / write mode); those values "
+               "are the documented impulse-response sums (closed forms by induction over the train); a delayed query returns the "
+               "value k steps ago when within tolerance of k*dt, the class's interpolation between the bracketing past values "
+               "otherwise (exact continuous-time response for the exponential classes), the overbound value / the value at the limit "
+               "outside [-tol, delay+tol]; in-place and out-of-place runs are equal.")
 HEADER = ("From Coq Require Import List ZArith Bool PrimFloat.\n"
           "From Inferno Require Import Base.Num Base.NumF C01.Ring C04.Synapse C04.SynapseExec.\n"
           "Import ListNotations.\n")
@@ -141,6 +156,28 @@ def gen_case(rng: random.Random, idx: int):
 
 def gen_cases(rng, n):
     return [gen_case(rng, i) for i in range(n)]
+
+
+def exhaustive_cases(maxlen=4):
+    """small scope, thorough tier: every spike train of length <= maxlen for one synapse x the 4 classes x both
+    interpolation modes, read back at every step of the grid, between steps and beyond the delay (delay = 2 dt)"""
+    import itertools
+    out = []
+    sels = [0.0, 0.5, 1.0, 1.5, 2.0, 2.25, 2.5, 3.0, -0.25, -0.5]
+    for cls in range(4):
+        for mode in (0, 1):
+            for L in range(1, maxlen + 1):
+                for train in itertools.product([0.0, 1.0], repeat=L):
+                    ops = []
+                    for x in train:
+                        ops.append(["step", [1, 1], [x], []])
+                    ops.append(["cur"])
+                    ops.append(["cur_at", [1, 1, len(sels)], list(sels)])
+                    ops.append(["spk_at", [1, 1, len(sels)], list(sels)])
+                    out.append({"cls": cls, "shape": [1], "batch": 1, "dt": 1.0, "delay": 2.0, "Q": 2.0, "tau": 5.0, "tr": 0.5,
+                                "mode": mode, "tol": 0.25, "cur_ob": 7.5, "spk_ob": True, "inplace": bool(L % 2),
+                                "float_in": False, "nonbinary": False, "dyadic": True, "malformed": False, "ops": ops})
+    return out
 
 
 
@@ -428,7 +465,7 @@ def oracle_case(case, res):
                     kind = "overbound" if (tf < -tol or tf > delay + tol) else "read_at_delay"
                     fails.append({"step": i, "op": op,
                                   "detail": {"element": e, "selector_index": j, "time": t, "expected": exp[1], "got": got},
-                                  "signature": sig_extra or {"kind": kind, "op": k}})
+                                  "signature": {"kind": kind, "op": k}})
                     break
             else:
                 continue
@@ -464,6 +501,8 @@ def run(ctx):
     n = 260 if ctx["tier"] == "quick" else 4000
     corpus = load_corpus()
     cases = corpus + gen_cases(rng, n)
+    if ctx["tier"] == "thorough":
+        cases += exhaustive_cases(4)
     impl = F.run_impl(IMPL, {"cases": cases})
     model = F.eval_terms(ID, HEADER, [q_case(c) for c in cases], shard=12 if ctx["tier"] == "quick" else 60)
     mismatches, oracle_fail = [], []
@@ -489,7 +528,8 @@ def run(ctx):
                 "classes x dt in {1,.5,.25,1.3,.1,.7} x max delay in {0,.5,1,1.5,2,2.5,3,4} dt x tol x overbound value/None x "
                 "interpolation mode x batch 1-3 x 5 shapes x inplace; each case is run with both inplace settings; every 6th "
                 "case from a malformed stream (wrong input shape, wrong selector rank); non-trivial = >=2 steps and >=2 op "
-                "kinds; distinct by full case text",
+                "kinds; distinct by full case text"
+                + ("; plus every spike train of length <= 4 x class x interpolation mode read back on / off the grid" if ctx["tier"] == "thorough" else ""),
         "op_distribution": dict(ops), "error_distribution": dict(errs),
         "class_distribution": dict(Counter(CLSN[c["cls"]] for c in cases)),
         "undelayed_cases": sum(1 for c in cases if c["delay"] == 0),
